@@ -54,11 +54,15 @@ def method_stubs(P, cls_qual, names, extra=None):
                         raise interp.Unknown(f'argument {p} of {name}')
             sub = interp.Machine(env, m.stubs, m.resolver)
             sub.steps = m.steps
+            is_gen = any(isinstance(x, (ast.Yield, ast.YieldFrom))
+                         for x in au.walk_no_defs(f.node))
+            if is_gen:
+                sub.yields = []
             try:
                 sub.run(f.node.body)
-                result = None
+                result = iter(sub.yields) if is_gen else None
             except interp.Returned as r:
-                result = r.value
+                result = iter(sub.yields) if is_gen else r.value
             finally:
                 # scalar attributes written by the callee
                 for k, v in sub.env.items():
@@ -3158,4 +3162,150 @@ def dot_model(P, R):
                 'styles, -1 on arcs to complemented successors only, one '
                 'external reference per root with its sign; the legend '
                 'in doc.md names the same styles')
+    return n
+
+
+def counting_model(P, R):
+    """`BDD.count(u, nvars)` and `BDD.pick_iter(u, care_vars)` interpreted
+    (with `_sat_len`, `_sat_iter`, `_enumerate_minterms`) on small
+    managers, for every node in both signs.  C10: the count is the number
+    of models over `nvars` variables and is refused below the size of the
+    support; the assignments of `pick_iter` mention every care variable
+    and every variable of the support, are pairwise different, satisfy
+    the function and are as many as it has models over those
+    variables."""
+    import itertools
+    names = ['a', 'b', 'c']
+    rows = list(itertools.product((False, True), repeat=3))
+
+    def tt(fn):
+        return tuple(bool(fn(*r)) for r in rows)
+    funcs = [tt(lambda a, b, c: a and not b),
+             tt(lambda a, b, c: (b if a else c)),
+             tt(lambda a, b, c: b != c),
+             tt(lambda a, b, c: c),
+             tt(lambda a, b, c: a or (b and c))]
+    stubs = ClassStubs(P, 'dd.bdd.BDD')
+    resolver = interp.ModuleEnv(P, 'dd.bdd', stubs)
+    cnt = P.func('dd.bdd.BDD.count')
+    pick = P.func('dd.bdd.BDD.pick_iter')
+    problems = dict()
+    n = 0
+    try:
+        for order, declared in ((['a', 'b', 'c'], None),
+                                (['c', 'a', 'b'], None),
+                                (['b', 'c', 'a'], ['a', 'b', 'c'])):
+            base, ext = _build_manager(order, funcs, range(len(funcs)),
+                                       declared=declared)
+            succ = base['self._succ']
+            refs = [s * u for u in succ for s in (1, -1)]
+            for u in refs:
+                t = _tt_of(base, u, names)
+                support = {v for k, v in enumerate(names) if any(
+                    t[i] != t[i ^ (1 << (2 - k))] for i in range(8))}
+                models_sup = len({tuple(r[names.index(v)]
+                                        for v in sorted(support))
+                                  for r, val in zip(rows, t) if val})
+                pc = [p for p in cnt.params if p != 'self']
+                for nv in (None, 0, 1, 2, 3, 4, 5):
+                    n += 1
+                    obj = _object_manager(copy.deepcopy(
+                        {k: v for k, v in base.items() if k != 'self'}))
+                    out, _ = interp.run_function(
+                        cnt.node, {'self': obj, pc[0]: u, pc[1]: nv},
+                        stubs, resolver)
+                    k = len(support)
+                    what = (f'order {order}, nodes {succ}: count({u}, '
+                            f'{nv}) of a function with support '
+                            f'{sorted(support)}')
+                    if nv is not None and nv < k:
+                        if out[0] != 'raise':
+                            problems.setdefault((cnt, 'count-accepts'), (
+                                f'{what}: returns {out[1]} for fewer '
+                                'variables than the support'))
+                        continue
+                    want = models_sup * 2 ** ((nv if nv is not None
+                                               else k) - k)
+                    if out != ('return', want):
+                        problems.setdefault((cnt, 'count-wrong'), (
+                            f'{what}: {out[0]} {out[1]}, expected '
+                            f'{want}'))
+                pp = [p for p in pick.params if p != 'self']
+                care_sets = [None, set(), {'a'}, {'b', 'c'},
+                             {'a', 'b', 'c'}, {'a', 'zz'}]
+                for care in care_sets:
+                    n += 1
+                    obj = _object_manager(copy.deepcopy(
+                        {k: v for k, v in base.items() if k != 'self'}))
+                    out, _ = interp.run_generator(
+                        pick.node, {'self': obj, pp[0]: u,
+                                    pp[1]: (set(care) if care is not None
+                                            else None)}, stubs, resolver)
+                    what = (f'order {order}, nodes {succ}: pick_iter({u}, '
+                            f'care_vars={care})')
+                    if out[0] != 'yield':
+                        problems.setdefault((pick, 'pick-raises'), (
+                            f'{what}: {out[0]} {out[1]}'))
+                        continue
+                    got = out[1]
+                    carev = set(care) if care is not None else set(support)
+                    extra = sorted(carev - set(names))
+                    allv = names + extra
+                    space = list(itertools.product(
+                        (False, True), repeat=len(allv)))
+                    covered = dict()
+                    bad = None
+                    for d in got:
+                        if not isinstance(d, dict) or not (
+                                carev <= set(d) <= set(allv)):
+                            bad = (f'the assignment {d} does not mention '
+                                   f'every care variable {sorted(carev)}')
+                            break
+                        for pt in space:
+                            val = dict(zip(allv, pt))
+                            if any(val[k] != v for k, v in d.items()):
+                                continue
+                            if pt in covered:
+                                bad = (f'the assignments {covered[pt]} '
+                                       f'and {d} overlap')
+                                break
+                            covered[pt] = d
+                            if not t[rows.index(tuple(
+                                    val[v] for v in names))]:
+                                bad = (f'the assignment {d} does not '
+                                       'satisfy the function however '
+                                       'completed')
+                                break
+                        if bad:
+                            break
+                    if bad is None:
+                        want_pts = {pt for pt in space if t[rows.index(
+                            tuple(dict(zip(allv, pt))[v] for v in names))]}
+                        if set(covered) != want_pts:
+                            bad = (f'the {len(got)} assignments cover '
+                                   f'{len(covered)} of the '
+                                   f'{len(want_pts)} models over {allv}')
+                        elif carev >= support and any(
+                                set(d) != carev for d in got):
+                            bad = ('an assignment mentions a variable '
+                                   'outside the care set, which covers '
+                                   'the support')
+                    if bad:
+                        problems.setdefault((pick, 'pick-wrong'),
+                                            f'{what}: {bad}')
+    except interp.Unknown as e:
+        R.undecided('R-VISIT', 'dd.bdd.BDD (count, pick_iter)',
+                    'counting model', str(e))
+        return None
+    for (f, sub), msg in sorted(problems.items(),
+                                key=lambda kv: (kv[0][0].qualname,
+                                                kv[0][1])):
+        R.violation('R-VISIT', sub, f.qualname, f.name, msg,
+                    unit=f.unit.rel, line=f.lineno)
+    if not problems:
+        R.holds('R-VISIT', 'dd.bdd.BDD (count, pick_iter)',
+                f'counting model ({n} calls on 3 managers): count = '
+                'number of models over nvars variables, refused below '
+                'the support; pick_iter = the models over support and '
+                'care variables, each once')
     return n
